@@ -372,6 +372,10 @@ func (r *Realm) parseLines(name string, lines []string) (err error) {
 				}
 				continue
 			}
+			if !strings.Contains(line, "=") {
+				// The closing bracket of a nested block carries no value to process.
+				continue
+			}
 		}
 
 		p := strings.Split(line, "=")
